@@ -4,7 +4,8 @@
    /repo/renormalizer/tn/treebase.py on every run.  Scalars: every commutative ring (Base/CRing.v). *)
 From Coq Require Import ZArith List Arith Permutation.
 Import ListNotations.
-From RV Require Import Base.CRing Gen.Partition Model.TreeTopo Model.Ttno Proofs.TreeTopoProofs Proofs.TtnoProofs.
+From RV Require Import Base.CRing Gen.Partition Gen.RootCover Model.TreeTopo Gen.TreeBuilders Model.Ttno
+  Proofs.TreeTopoProofs Proofs.TreeBuildersProofs Proofs.TtnoProofs.
 
 (* ---------------------------------------------------------------- tree constructors *)
 (* the GENERATED approximate_partition: the groups concatenate to the input, for every list (the empty
@@ -14,37 +15,44 @@ Theorem C02_partition_concat : forall (A : Type) (l : list A) (n : Z),
 Proof. exact partition_concat. Qed.
 Print Assumptions C02_partition_concat.
 
-(* every builder keeps every basis set exactly once (all list lengths, all tree orders >= 1, all three
-   ways of forming the elementary MCTDH nodes incl. every contract_label vector), purely virtual
-   nodes carry nothing else, and the virtual DoF names are pairwise distinct *)
+(* The builders below are the GENERATED definitions of Gen/TreeBuilders.v (loop bounds, indices, slice
+   bounds, tests, counter arithmetic and recursion structure taken from treebase.py on every run).
+   Every builder keeps every basis set exactly once -- all list lengths, all tree orders >= 2, all three
+   ways of forming the elementary MCTDH nodes incl. every contract_label vector --, purely virtual nodes
+   carry nothing else, and the virtual DoF names are pairwise distinct. *)
 Theorem C02_builders_exactly_once : forall (A : Type) (l : list A),
-  (forall t, linear l = Some t -> Permutation (real_basis t) l /\ nodes_ok t = true /\ NoDup (dummy_ids t)) /\
-  (forall t, binary l = Some t -> Permutation (real_basis t) l /\ nodes_ok t = true /\ NoDup (dummy_ids t)) /\
-  (forall order mode t, 0 < order -> general_mctdh l order mode = Some t ->
+  (forall t, linear_g l = Some t -> Permutation (real_basis t) l /\ nodes_ok t = true /\ NoDup (dummy_ids t)) /\
+  (forall t, binary_g l = Some t -> Permutation (real_basis t) l /\ nodes_ok t = true /\ NoDup (dummy_ids t)) /\
+  (forall order mode t, 2 <= order -> general_mctdh_g l (Z.of_nat order) mode = Some t ->
        Permutation (real_basis t) l /\ nodes_ok t = true /\ NoDup (dummy_ids t)) /\
-  (Permutation (real_basis (t3ns l)) l /\ nodes_ok (t3ns l) = true /\ NoDup (dummy_ids (t3ns l))).
-Proof. exact builders_exactly_once. Qed.
+  (forall t, t3ns_g l = Some t -> Permutation (real_basis t) l /\ nodes_ok t = true /\ NoDup (dummy_ids t)).
+Proof. exact builders_g_exactly_once. Qed.
 Print Assumptions C02_builders_exactly_once.
 
-Theorem C02_builders_keep_order : forall (A : Type) (l : list A),
-  (forall t, linear l = Some t -> real_basis t = l) /\
-  (forall order mode t, 0 < order -> general_mctdh l order mode = Some t -> real_basis t = l) /\
-  real_basis (t3ns l) = l.
-Proof. exact builders_keep_order. Qed.
-Print Assumptions C02_builders_keep_order.
+(* ... and they do return a tree on every input the code accepts: the python recursions on list
+   lengths terminate within the fuel the generated functions carry, no index is out of range; linear,
+   general_mctdh and t3ns even keep the order of the caller's list.  [mode_ok]: a contract_label
+   vector has the length of the basis list (the code's assert). *)
+Theorem C02_builders_total : forall (A : Type) (l : list A),
+  (l <> [] -> exists t, linear_g l = Some t /\ real_basis t = l) /\
+  (l <> [] -> exists t, binary_g l = Some t) /\
+  (forall order mode, 2 <= order -> 1 < length l -> mode_ok mode l ->
+       exists t, general_mctdh_g l (Z.of_nat order) mode = Some t /\ real_basis t = l) /\
+  (exists t, t3ns_g l = Some t /\ real_basis t = l).
+Proof. exact builders_g_total. Qed.
+Print Assumptions C02_builders_total.
 
-(* the recursive builders recurse on list lengths; the model recurses on a fuel argument.  More fuel
-   than the model supplies never changes the tree (tree order >= 2 for general_mctdh, as Python's own
-   recursion requires): the out-of-fuel branches of the model are dead code.  [mode_ok]: a
-   contract_label vector has the length of the basis list (the code's assert). *)
-Theorem C02_builders_fuel_irrelevant : forall (A : Type) (l : list A),
-  (forall f a offs, l = a :: offs -> length offs <= f -> bin f a offs = bin (length offs) a offs) /\
-  (forall order mode f, 2 <= order -> mode_ok mode l -> l <> [] -> length l <= f ->
-     mctdh_rec f order (map leaf (elementary order mode l)) 0
-     = mctdh_rec (length l) order (map leaf (elementary order mode l)) 0) /\
-  (forall f g ctr, In g (approximate_partition l 3%Z) -> length l <= f -> t3_rec f g ctr = t3_rec (length l) g ctr).
-Proof. intros A. exact (@builders_fuel_irrelevant A). Qed.
-Print Assumptions C02_builders_fuel_irrelevant.
+(* what general_mctdh's asserts reject, the generated function rejects *)
+Theorem C02_general_mctdh_rejects : forall (A : Type) (l : list A) order mode,
+  length l <= 1 \/ ~ mode_ok mode l -> general_mctdh_g l order mode = None.
+Proof. intros A. exact (@general_mctdh_g_rejects A). Qed.
+Print Assumptions C02_general_mctdh_rejects.
+
+(* the generated linear / binary / t3ns coincide with the structural models of Model/TreeTopo.v *)
+Theorem C02_builders_eq_model : forall (A : Type) (l : list A),
+  linear_g l = linear l /\ binary_g l = binary l /\ t3ns_g l = Some (t3ns l).
+Proof. intros A l. exact (conj (linear_g_eq l) (conj (binary_g_eq l) (t3ns_g_eq l))). Qed.
+Print Assumptions C02_builders_eq_model.
 
 (* ---------------------------------------------------------------- column bookkeeping *)
 (* For ALL trees, all positions of the subtree in the post-order list and all header continuations:
@@ -89,6 +97,67 @@ Theorem C02_ttno_sound_table : forall (R : CRing) tr (T : table R) ws,
   forall s, length s = width tr -> final_den R tr T ws s = coeff T s.
 Proof. exact ttno_sound_table. Qed.
 Print Assumptions C02_ttno_sound_table.
+
+(* ---- the qr algorithm.  One step, relative to an exact factorisation witness: [qrows]/[qcols] are
+   duplicate-free lists containing the row / column keys, q the out-operators (sparse columns of Q), r the
+   new table (sparse R); [qr_valid] demands  sum_l Q[rk,l] R[l,ck] = Gamma[rk,ck]  for all listed keys *)
+Theorem C02_one_site_qr_sound : forall (R : CRing) (w : nat) (t : table R) (qrows qcols : list key) (q : bond R)
+    (r : list (rentry R)) (Drow G : key -> R),
+  qr_valid R w t qrows qcols q r ->
+  lsum (qr_table R r) (fun y => rmul R (rmul R (snd y) (Dout_of R Drow q (hd O (fst y)))) (G (tl (fst y))))
+  = lsum t (fun x => rmul R (rmul R (snd x) (Drow (rkey R w x))) (G (ckey R w x))).
+Proof. exact one_site_qr_sound. Qed.
+Print Assumptions C02_one_site_qr_sound.
+
+(* all trees, every node decomposed either by a vertex cover (WG) or by a factorisation (WQ); the
+   hypothesis on the final table is what the code produces at the root (one column: q = gamma, r = [[1]]) *)
+Theorem C02_ttno_sound_qr : forall (R : CRing) tr (T : table R) (sws : list (swit R)),
+  rect R (width tr) T -> svalid_run R (pmk tr) T sws ->
+  snd (sconstruct tr T sws) = [([O], r1 R)] ->
+  forall s, length s = width tr -> ttno_coeff tr (fst (sconstruct tr T sws)) s = coeff T s.
+Proof. exact ttno_sound_qr. Qed.
+Print Assumptions C02_ttno_sound_qr.
+
+(* ---- bond labels (one component pq of the quantum number; apply per component).  If all terms carry
+   the same total charge q, then in every out-operator of every node all summands are equally charged
+   (so `out_op[0].qn`, the label _compute_qn assigns, does not depend on scipy's ordering) and every
+   row of the final table addresses a root label equal to q (TTNO.qntot).  [nonred_run]: no selected
+   column is redundant (its complementary operator is not empty; otherwise the code raises). *)
+Theorem C02_ttno_qn_labels : forall (R : CRing) (pq : nat -> Z) tr (T : table R) ws (q : Z),
+  rect R (width tr) T -> valid_run (pmk tr) T ws = true -> nonred_run (pmk tr) T ws = true ->
+  (forall x, In x T -> chg pq (fst x) = q) ->
+  consistentb R pq tr (fst (construct tr T ws)) = true /\
+  forall y, In y (snd (construct tr T ws)) -> lab R pq tr (fst (construct tr T ws)) (olast R y) = q.
+Proof. exact ttno_qn_labels. Qed.
+Print Assumptions C02_ttno_qn_labels.
+
+(* ---- the root.  construct_symbolic_ttno drops the last `factor` without the chain's
+   `assert factor[0] == 1`.  With the GENERATED orientation rule (Gen/RootCover.v): at the root (one
+   unique column, >= 1 unique rows) the columns are the U side, and whenever the column is matched --
+   it is in every maximum matching, having an edge -- the cover is {column}, no row ... *)
+Theorem C02_root_cover_orientation : forall (rowkeys : list key) (matchV : list (option nat)),
+  rowkeys <> [] -> In (Some O) matchV -> root_witness rowkeys matchV = Some ([], [[]]).
+Proof. exact root_cover_orientation. Qed.
+Print Assumptions C02_root_cover_orientation.
+
+(* ... hence the discarded table is the single row [0] with factor ONE *)
+Theorem C02_root_factor_one : forall (R : CRing) tr (T : table R) ws (rowkeys : list key) (matchV : list (option nat)),
+  rowkeys <> [] -> In (Some O) matchV ->
+  Some (nth (size tr - 1) ws ([], [])) = root_witness rowkeys matchV ->
+  snd (construct tr T ws) = [([O], r1 R)].
+Proof. exact root_factor_one. Qed.
+Print Assumptions C02_root_factor_one.
+
+(* The dependence is real: the other minimum cover of the one-edge graph (the row) is an admissible
+   witness of the same size, but then a factor 2 stays in the discarded table and the TTNO is wrong. *)
+Theorem C02_root_factor_other_cover_refuted :
+  rect ZRing (width refute_tree) refute_table /\
+  valid_run (pmk refute_tree) refute_table refute_ws = true /\
+  length (fst (hd ([], []) refute_ws)) + length (snd (hd ([], []) refute_ws)) = 1 /\
+  snd (construct refute_tree refute_table refute_ws) = [([0], 2%Z)] /\
+  ttno_coeff refute_tree (fst (construct refute_tree refute_table refute_ws)) [5] <> coeff refute_table [5].
+Proof. exact root_factor_other_cover_refuted. Qed.
+Print Assumptions C02_root_factor_other_cover_refuted.
 
 (* two trees whose tables are related by an injective relabelling of operator strings (another
    post-order = column permutation, identity columns of virtual nodes, another numbering of the
@@ -150,7 +219,7 @@ Proof. vm_compute. split; reflexivity. Qed.
 (* general_mctdh on 5 basis sets, order 4, primitives contracted: 10 nodes, one of them a purely
    virtual LEAF (the empty fourth group) *)
 Example C02_ex_mctdh :
-  option_map (fun t => pmk (shape t)) (general_mctdh [0; 1; 2; 3; 4] 4 ContractAll)
+  option_map (fun t => pmk (shape t)) (general_mctdh_g [0; 1; 2; 3; 4] 4%Z ContractAll)
   = Some [(0, 1); (0, 1); (2, 1); (0, 1); (0, 1); (2, 1); (0, 1); (1, 1); (0, 1); (4, 1)].
 Proof. vm_compute. reflexivity. Qed.
 
@@ -191,3 +260,46 @@ Example C02_ex_stack :
   = [ [Phys 1 0; Phys 2 0; Phys 3 0; Phys 4 0]; [Phys 2 0; Phys 3 0; Phys 4 0; Out 0]; [Phys 3 0; Phys 4 0; Out 0; Out 1];
       [Phys 4 0; Out 0]; [] ].
 Proof. vm_compute. split; reflexivity. Qed.
+
+(* a factorisation that genuinely mixes rows: the chain of two sites with
+   Gamma = [[1, 1], [1, -1]] = Q . I,  out-operators  L0 + L1  and  L0 - L1;  cover at the root *)
+Definition exq_tree : tree := chain_tree 1.
+Definition exq_table : table ZRing := [([1; 3], 1%Z); ([1; 4], 1%Z); ([2; 3], 1%Z); ([2; 4], (-1)%Z)].
+Definition exq_ws : list (swit ZRing) :=
+  [ WQ ZRing [[0; 1]; [0; 2]] [[3]; [4]]
+       [ [([0; 1], 1%Z); ([0; 2], 1%Z)]; [([0; 1], 1%Z); ([0; 2], (-1)%Z)] ]
+       [ (0, [3], 1%Z); (1, [4], 1%Z) ];
+    WG ([], [[]]) ].
+Example C02_ex_qr :
+  svalid_run ZRing (pmk exq_tree) exq_table exq_ws /\
+  snd (sconstruct exq_tree exq_table exq_ws) = [([0], 1%Z)] /\
+  map (ttno_coeff exq_tree (fst (sconstruct exq_tree exq_table exq_ws))) [[1; 3]; [1; 4]; [2; 3]; [2; 4]; [1; 1]]
+  = [1; 1; 1; -1; 0]%Z.
+Proof.
+  split; [|split; vm_compute; reflexivity].
+  cbn [svalid_run pmk exq_tree chain_tree postorder flat_map map app mk_of arity nsets children length fst snd hd tl exq_ws svalid_step].
+  split; [|split; [vm_compute; reflexivity|exact I]].
+  unfold qr_valid. split; [repeat constructor; cbn; intuition discriminate|].
+  split; [repeat constructor; cbn; intuition discriminate|].
+  split; [intros x Hx; vm_compute in Hx; intuition (subst; vm_compute; auto)|].
+  split; [intros e p He Hp; vm_compute in He; intuition (subst; vm_compute in Hp; intuition (subst; vm_compute; auto))|].
+  split.
+  { intros e He. destruct He as [<-|[<-|[]]].
+    - split; [vm_compute; auto|]. exists ([0; 1; 3], 1%Z). vm_compute. auto.
+    - split; [vm_compute; auto|]. exists ([0; 1; 4], 1%Z). vm_compute. auto. }
+  intros rk ck Hr Hc. vm_compute in Hr, Hc. intuition (subst; vm_compute; reflexivity).
+Qed.
+
+(* labels: charges pq(1) = 1, pq(2) = 0, pq(3) = 0, pq(4) = 1 -- every row of the table below has charge 1;
+   covers: rows at the leaf, the column at the root *)
+Definition exl_table : table ZRing := [([1; 3], 2%Z); ([2; 4], 3%Z)].
+Definition exl_ws : list wit := [ ([[0; 1]; [0; 2]], []); ([], [[]]) ].
+Definition exl_pq (i : nat) : Z := match i with 1 => 1%Z | 4 => 1%Z | _ => 0%Z end.
+Example C02_ex_labels :
+  valid_run (pmk exq_tree) exl_table exl_ws = true /\ nonred_run (pmk exq_tree) exl_table exl_ws = true /\
+  (forall x, In x exl_table -> chg exl_pq (fst x) = 1%Z) /\
+  all_labs ZRing exl_pq exq_tree (fst (construct exq_tree exl_table exl_ws)) = [[1; 0]; [1]]%Z.
+Proof.
+  split; [vm_compute; reflexivity|]. split; [vm_compute; reflexivity|]. split; [|vm_compute; reflexivity].
+  intros x Hx. vm_compute in Hx. intuition (subst; reflexivity).
+Qed.
